@@ -736,6 +736,9 @@ func (v *FnVerifier) usedSpecs(name string) {
 // integer-valued reals are kept in the shape (to_real <int term>) so that truncation
 // and comparison stay in integer arithmetic (solvers are weak on nested to_int).
 func intForm(t Term) (string, bool) {
+	if strings.HasSuffix(t.S, ".0") && !strings.ContainsAny(t.S, "() /") {
+		return strings.TrimSuffix(t.S, ".0"), true
+	}
 	if strings.HasPrefix(t.S, "(to_real ") && strings.HasSuffix(t.S, ")") && matchParen(t.S, 0) == len(t.S)-1 {
 		return t.S[len("(to_real ") : len(t.S)-1], true
 	}
